@@ -124,6 +124,47 @@ static int run_ord(std::istringstream& hs, const std::string& header)
     return 0;
 }
 
+// ---------------------------------------------------------------- unordered list (valid histories only: it has no checks)
+static std::string dump_u(free_memory_list& l)
+{
+    std::string s = "nodes="; bool first = true; long n = 0;
+    for (char* cur = l.first_; cur; cur = list_get_next(cur)) { char b[32]; std::snprintf(b, sizeof b, "%s%ld", first ? "" : ",", long(cur - g.mem)); s += b; first = false; if (++n > 100000) break; }
+    if (first) s += "-";
+    char b[48]; std::snprintf(b, sizeof b, " cap=%zu", l.capacity()); s += b;
+    return s;
+}
+static int run_unord(std::istringstream& hs, const std::string& header)
+{
+    std::size_t ns; hs >> ns;
+    auto* l = new (static_cast<void*>(g.low)) free_memory_list(ns);
+    std::printf("%s = ok | ns=%zu | %s\n", header.c_str(), l->node_size(), dump_u(*l).c_str());
+    struct h { char* p; std::size_t bytes; };
+    std::vector<h> live; std::string line;
+    while (std::getline(std::cin, line))
+    {
+        std::istringstream is(line); std::string op; is >> op; std::string res;
+        if (op == "ins") { std::size_t off, size; is >> off >> size; l->insert(g.mem + off, size); res = "done"; }
+        else if (op == "a") { if (l->empty()) { std::printf("%s = skipped\n", line.c_str()); continue; } char* p = static_cast<char*>(l->allocate()); live.push_back({p, l->node_size()}); res = "ok " + std::to_string(p - g.mem); }
+        else if (op == "aa")
+        {
+            std::size_t bytes; is >> bytes; if (l->empty()) { std::printf("%s = skipped\n", line.c_str()); continue; }
+            char* p = static_cast<char*>(l->allocate(bytes));
+            if (p) { live.push_back({p, bytes}); res = "ok " + std::to_string(p - g.mem); } else res = "null";
+        }
+        else if (op == "d")
+        {
+            std::size_t k; is >> k; if (live.empty()) { std::printf("%s = skipped\n", line.c_str()); continue; }
+            k %= live.size(); auto x = live[k]; live.erase(live.begin() + long(k));
+            if (x.bytes > l->node_size()) l->deallocate(x.p, x.bytes); else l->deallocate(x.p);
+            res = "released " + std::to_string(x.p - g.mem) + " " + std::to_string(x.bytes);
+        }
+        else if (op == "q") res = "q";
+        else continue;
+        std::printf("%s = %s | %s\n", line.c_str(), res.c_str(), dump_u(*l).c_str());
+    }
+    return 0;
+}
+
 // ---------------------------------------------------------------- small list
 static std::string dump_small(small_free_memory_list& l)
 {
@@ -292,6 +333,7 @@ int main()
     std::istringstream hs(header); std::string mode; hs >> mode;
     if (mode == "ord") return run_ord(hs, header);
     if (mode == "small") return run_small(hs, header);
+    if (mode == "unord") return run_unord(hs, header);
     if (mode == "lifo") return run_lifo(hs, header);
     if (mode == "unwind") return run_unwind(hs, header);
     if (mode == "pool")
